@@ -15,7 +15,8 @@ default-option emitters; a variant is classified by the queries that describe th
 (variant_queries).  Two input streams: (1) per width of a short list, many random IRs; (2) the dense sweep: a few IRs
 (typed parameters with defaults, prose of every length, types with blanks inside quoted Literal members) evaluated
 at EVERY width of a range with every pair - the property quantifies over widths and a break position that matters
-(inside a quoted choice, inside a default sentence) is hit by a few widths only."""
+(inside a quoted choice, inside a default sentence, right after a token that ends in a hyphen or another punctuation
+character: gen_text.edge_prose, tag edge-punct, in both streams) is hit by a few widths only."""
 import ast
 import collections
 import copy
@@ -416,13 +417,25 @@ def variant_queries(pair, ir):
     return q
 
 
+def reader_keeps_sentence(pair):
+    """what the reader of this pair's artefact does with a default sentence found in the prose: parse.docstring and
+    parse.function read with emit_default_doc=True (the sentence stays in the prose and is searched again once the lines
+    are re-joined); parse.class_ reads the class docstring with emit_default_doc=False and parse.argparse_ast reads every
+    help text with parse_out_param(..., emit_default_doc=False): the sentence is cut out of the still wrapped text"""
+    return pair.split("+")[0] not in ("class", "argparse")
+
+
 def classify(points):
     """points: [(width, pair, ir)] -> class name or None, via the extracted Coq classifier (first class found among
-    the queries of the pair)"""
+    the queries of the pair).  The request is c18_class_r (C18Spec2.finding_class_C18_r): with keep=true it is
+    finding_class_C18; with keep=false (readers that drop the sentence, see reader_keeps_sentence) every entry whose
+    wrapped line announces a default is in class default-sentence-wrapped as well"""
     reqs, owner = [], []
     for i, (w, e, ir) in enumerate(points):
+        keep = reader_keeps_sentence(e)
         for be, bir in variant_queries(e, ir):
-            reqs.append(dumps([Sym("c18_class"), (100 if w is None else w), Sym(be), irwire.enc_ir(fam_docemit._od(bir))]))
+            reqs.append(dumps([Sym("c18_class_r"), keep, (100 if w is None else w), Sym(be),
+                               irwire.enc_ir(fam_docemit._od(bir))]))
             owner.append(i)
     out = [None] * len(points)
     for i, r in zip(owner, run_model(reqs)):
@@ -511,12 +524,14 @@ def oracle(rng, tier):
         "evaluations": len(points),
         "distinct_nontrivial": len(seen),
         "rule": "random stream: widths %s x word_wrap on/off x generated IRs (gen_ir clean and general; prose/summaries/types "
-                "stretched to below, at and far above the width; words longer than the width, hyphenated words and Literal "
-                "types with blanks inside quoted members seeded) x the six default-option pairs and two of the option "
-                "variants %s; dense sweep: %d IRs x every width %d..%d x all %d pairs; one child process per width; "
+                "stretched to below, at and far above the width; words longer than the width, hyphenated words, prose dense "
+                "in tokens that end / begin in punctuation (suspended hyphens `left- or right-aligned`, `items;`, `(see`, "
+                "lone `-`) and Literal types with blanks inside quoted members seeded) x the six default-option pairs and two of the option "
+                "variants %s; dense sweep: %d IRs + %d IRs whose prose is dense in punctuation-edged tokens x every width "
+                "%d..%d x all %d pairs; one child process per width; "
                 "non-trivial = distinct (width, pair, IR) inside the guard on which wrapping changed the artefact and both "
                 "pipelines parsed to the same interface"
-                % (["unset" if w is None else w for w in widths], list(VARIANTS), n_sweep, sweep_widths[0], sweep_widths[-1],
+                % (["unset" if w is None else w for w in widths], list(VARIANTS), n_sweep, len(sweep) - n_sweep, sweep_widths[0], sweep_widths[-1],
                    len(ALL_PAIRS)),
         "failures": failures,
         "histogram": dict(hist),
